@@ -149,7 +149,7 @@ impl Check for C16 {
         "C16"
     }
     fn plan(&self, tier: Tier) -> Plan {
-        Plan::new(tier.pick(30_000, 1_000_000), tier.pick(30.0, 420.0))
+        Plan::new(tier.pick(450_000, 45_000_000), tier.pick(30.0, 360.0))
     }
     fn selftest(&self) -> Result<(), String> {
         chunk::selftest()
